@@ -187,7 +187,9 @@ Fixpoint parseExpression (fuel : nat) (prec : Z) (s : pstate) {struct fuel} : re
     else
       match table_get prefix_fns (pty (ps_cur s)) with
       | None =>
-        if peekIs s token_LAMBDA then ROk None s
+        if curIs s token_RPAREN && Z.eqb (ttype (ps_prev s)) token_LPAREN && peekIs s token_EOL
+        then ROk None (set_cont s)   (* `()` at the end of a line: `=>` may follow on the next one *)
+        else if peekIs s token_LAMBDA then ROk None s
         else ROk None (add_err (ENoPrefix (pty (ps_cur s))) s)
       | Some fn =>
         dob (left, s1) <- prefixFn f fn s;
